@@ -111,7 +111,8 @@ Fixpoint client (tr : list wev) (committed : bool) (st : Z) (hs : list (Z * Z)) 
 Definition client_view (tr : list wev) : view := client tr false 0 [] [] 0.
 
 (* ---- integer encoding: one op = one exchange on a freshly built stack ----
-   [nlayers; (kind intervenes sticky)*; proto; acts...] with proto 0 = HTTP/1, 1 = HTTP/2 and
+   [nlayers; (kind intervenes sticky)*; proto; acts...] with proto 0 = HTTP/1, 1 = HTTP/2 (2, 3: the same after the
+   stack has served a request whose handler aborted by panicking: a finished request leaves nothing behind) and
    acts 0 k v | 1 c | 2 len b.. | 3 | 4 | 5 c (informational, ignored) | 6 v (Set-Cookie of the handler's own) *)
 Definition kind_of (z : Z) : kind :=
   match z with 0 => KStream | 1 => KTrace | 2 => KConn | 3 => KRate | 4 => KBreaker | 5 => KRR | 6 => KReb | _ => KBuffer end.
@@ -153,7 +154,7 @@ Definition exchange (op : list Z) : list Z :=
   | nl :: r =>
       let '(st, r') := decode_layers (Z.to_nat nl) r in
       let h := match r' with _ :: acts => decode_acts (length acts) acts | [] => [] end in
-      let c := match r' with 1 :: _ => h2caps | _ => full end in
+      let c := match r' with 1 :: _ | 3 :: _ => h2caps | _ => full end in
       let '(tr, n) := serve st c h in
       let v := client_view tr in
       [zbool (v_hijacked v); v_status v; n; Z.of_nat (length (v_body v)); hash_bytes (v_body v);
